@@ -282,11 +282,15 @@ def run(chk, prog):
     # table with the writer's stride: decided under C01/R2 (source = destination + stored index - centre) and C08/R1, re-evaluated here
     from . import C01 as c01, C08 as c08
     sub = type(chk)("C01", chk.tier)
+    from .. import main as _main
+    _main.check_anchors("C01", prog)
     c01.run(sub, prog)
     r5 = [i for i in sub.instances if i["rule"] == "R2" and "KickMap" in i["site"] and "-kick" in i["what"]]
     for i in r5:
         chk.check(i["ok"], "R5", i["site"], "(C01/R2) %s" % i["what"].split("\n")[0][:220], "C01-R2:%s" % i.get("key", "ok"))
     sub8 = type(chk)("C08", chk.tier)
+    from .. import main as _main
+    _main.check_anchors("C08", prog)
     c08.run(sub8, prog)
     r8 = [i for i in sub8.instances if i["rule"] == "R1" and "reader" in i["what"]]
     for i in r8:
